@@ -17,6 +17,8 @@ const (
 	SInt Sort = iota
 	SBool
 	SStr
+	SArr  // Array Int Int
+	SArr2 // Array Int (Array Int Int)
 )
 
 func (s Sort) String() string {
@@ -27,6 +29,10 @@ func (s Sort) String() string {
 		return "Bool"
 	case SStr:
 		return "String"
+	case SArr:
+		return "(Array Int Int)"
+	case SArr2:
+		return "(Array Int (Array Int Int))"
 	}
 	return "?"
 }
@@ -345,6 +351,24 @@ func Ite(c, a, b *Term) *Term {
 	return mk("ite", a.Sort, c, a, b)
 }
 
+func Select(a, i *Term) *Term {
+	rs := SInt
+	if a.Sort == SArr2 {
+		rs = SArr
+	}
+	if a.Op == "store" {
+		if a.Args[1] == i {
+			return a.Args[2]
+		}
+		if a.Args[1].IsConst() && i.IsConst() {
+			return Select(a.Args[0], i)
+		}
+	}
+	return mk("select", rs, a, i)
+}
+
+func Store(a, i, v *Term) *Term { return mk("store", a.Sort, a, i, v) }
+
 func Forall(bound []*Term, body *Term) *Term {
 	if body.IsBConst() {
 		return body
@@ -431,6 +455,8 @@ func rebuild(t *Term, args []*Term) *Term {
 		return Ite(args[0], args[1], args[2])
 	case "app":
 		return appSimplify(t.Name, t.Sort, args)
+	case "select":
+		return Select(args[0], args[1])
 	default:
 		return intern(&Term{Op: t.Op, Name: t.Name, Args: args, Sort: t.Sort})
 	}
@@ -627,6 +653,9 @@ func RenderVC(hyps []*Term, goal *Term, wantModel bool) string {
 	sort.Strings(vn)
 	for _, n := range vn {
 		sb.WriteString(fmt.Sprintf("(declare-const %s %s)\n", smtName(n), p.vars[n]))
+		if ax, ok := funAxioms[n]; ok {
+			sb.WriteString(ax + "\n")
+		}
 	}
 	var fn []string
 	for n := range p.funs {
